@@ -398,6 +398,12 @@ func (s *Lexer) getNextToken() (*Token, error) {
 		} else if current_state == SBLOCKCOMMENTENDEND || current_state == SBLOCKCOMMENTSTARTEND {
 			buf.WriteRune(ch)
 			current_state = SBLOCKCOMMENT
+		} else if current_state == SSTRING_D_ESCAPE {
+			buf.WriteRune(s.readEscape(ch))
+			current_state = SSTRING_DOUBLE
+		} else if current_state == SSTRING_S_ESCAPE {
+			buf.WriteRune(s.readEscape(ch))
+			current_state = SSTRING_SINGLE
 		} else if ch == '\\' && current_state == SSTRING_DOUBLE {
 			current_state = SSTRING_D_ESCAPE
 		} else if current_state == SSTRING_DOUBLE {
@@ -500,35 +506,7 @@ func (s *Lexer) getNextToken() (*Token, error) {
 			buf.WriteRune(ch)
 		} else if ch == '"' && current_state == SSTART {
 			current_state = SSTRING_DOUBLE
-		} else if current_state == SSTRING_D_ESCAPE {
-			if ch == 'x' {
-				next_ch := s.read()
-				next_next_ch := s.read()
-				if IsHex(next_ch) && IsHex(next_next_ch) {
-					buf.WriteRune(HexToAscii(next_ch, next_next_ch))
-				} else {
-					s.unread(2)
-					buf.WriteRune('x')
-				}
-			} else {
-				buf.WriteRune(getEscapedRune(ch))
-			}
-			current_state = SSTRING_DOUBLE
 		} else if ch == '\'' && current_state == SSTART {
-			current_state = SSTRING_SINGLE
-		} else if current_state == SSTRING_S_ESCAPE {
-			if ch == 'x' {
-				next_ch := s.read()
-				next_next_ch := s.read()
-				if IsHex(next_ch) && IsHex(next_next_ch) {
-					buf.WriteRune(HexToAscii(next_ch, next_next_ch))
-				} else {
-					s.unread(2)
-					buf.WriteRune('x')
-				}
-			} else {
-				buf.WriteRune(getEscapedRune(ch))
-			}
 			current_state = SSTRING_SINGLE
 		} else if current_state == SCOMMENTSTART {
 			s.unread_last()
@@ -765,6 +743,21 @@ func (s *Lexer) getNextToken() (*Token, error) {
 		return nil, NewLexError(token, "Unknown token")
 	}
 	return token, nil
+}
+
+// readEscape decodes the escape that starts with ch, the character after the backslash.
+// \xHH is a hex escape only if two hex digits follow; otherwise \x is a plain x and the
+// characters after it are left in the input.
+func (s *Lexer) readEscape(ch rune) rune {
+	if ch == 'x' {
+		digits, _ := s.r.Peek(2)
+		if len(digits) == 2 && IsHex(rune(digits[0])) && IsHex(rune(digits[1])) {
+			next_ch := s.read()
+			next_next_ch := s.read()
+			return HexToAscii(next_ch, next_next_ch)
+		}
+	}
+	return getEscapedRune(ch)
 }
 
 func getEscapedRune(ch rune) rune {
